@@ -341,7 +341,7 @@ def c07(tier):
         msgs = [bytes(m) for m in h]
         whole = b"".join(msgs)
         n = len(whole)
-        N = s.rng.choice([min(32, max(len(m) for m in msgs)), min(n, 32), min(n + 1, 32), 16, 32, 64])
+        N = s.rng.choice([min(64, max(len(m) for m in msgs)), min(n, 64), min(n + 1, 64), s.rng.randint(1, 64), 32, 64])
         fit = N if msgs_fit(msgs, N) else None
         cases.append(procset_case(whole, N, variants_for(s.rng, n, False), msgs=msgs if fit else None))
     # 2c. seeded long streams, also arbitrary bytes
@@ -567,7 +567,7 @@ def c08(tier):
             cases.append(procset_case(m, 1024, vs))
             continue
         cases.append(procset_case(m, 64, vs))
-        cases.append(procset_case(m, min(32, n), [{"chunks": []}, {"chunks": [1] * n}]))     # buffer just holds the message
+        cases.append(procset_case(m, min(64, n), [{"chunks": []}, {"chunks": [1] * n}]))     # buffer just holds the message
     # pairs of such messages and a message after them (path must be the root again)
     for _ in range(300 if tier == "quick" else 3000):
         a, c = s.rng.choice(msgs), s.rng.choice(msgs)
@@ -870,14 +870,14 @@ def c05(tier):
                 procs = [{"N": N, "chunks": ch} for N in (1, 3, 8) for ch in ([], [1] * n)] if "\n" in st else [{"N": 2, "chunks": []}]
             cases.append({"kind": "multi", "iface": "tiny", "in": b(st), "writers": writers, "procs": procs})
     # (2) messages of the main interface with small writers and buffers (responses that do not fit)
-    mw = [{"k": "rec"}, {"k": "std"}] + [{"k": "heapless", "cap": c} for c in (0, 1, 2, 3, 4, 5, 6, 7, 8, 16, 64)] + \
+    mw = [{"k": "rec"}, {"k": "std"}] + [{"k": "heapless", "cap": c} for c in range(0, 65)] + \
          [{"k": "rec", "cap": c} for c in (0, 1, 2, 3, 5, 9, 13, 21, 34, 63)]
     vocab = VOCAB_FAULT + ["MEAS:VOLT?", "C?", "*Q?", "A:H? #15hello", "A:E? 'abcdefghijklmnop'", "A:B:D?"]
     for _ in range(400 if tier == "quick" else 4000):
         msgs = random_history(s.rng, vocab, s.rng.randint(1, 4), maxunits=3)
         whole = "".join(msgs)
         procs = [{"N": N, "chunks": s.rng.choice([[], [1] * len(whole), random_chunks(s.rng, len(whole))])}
-                 for N in s.rng.sample(range(1, 33), 6) + [47, 64]]
+                 for N in s.rng.sample(range(1, 65), 8) + [64, 128]]
         cases.append({"kind": "multi", "iface": "main", "in": b(whole), "writers": mw, "procs": procs})
     for ty, lit in c03_literals(s.rng, "quick")[-1200:] + [(t, l) for t in ("u8", "f32", "f64", "i64", "bool", "str") for l in LONG_NUMS]:
         cases.append({"kind": "multi", "iface": "vals", "in": b("V:%s %s\n" % (TYNAME[ty], lit)), "writers": [{"k": "rec"}, {"k": "heapless", "cap": 64}],
@@ -897,8 +897,8 @@ def c05(tier):
                 data[k] = s.rng.choice([s.rng.randrange(256), 10, 34, 39, 35, 59])
             data = bytes(data)
         procs = [{"N": N, "chunks": s.rng.choice([[], [1] * len(data), random_chunks(s.rng, len(data))])}
-                 for N in s.rng.sample(range(1, 33), 3) + [64, 128, 1024]]
-        cases.append({"kind": "multi", "iface": "main", "in": b(data), "writers": mw[:6], "procs": procs})
+                 for N in s.rng.sample(range(1, 65), 4) + [64, 128, 1024]]
+        cases.append({"kind": "multi", "iface": "main", "in": b(data), "writers": mw[:2] + s.rng.sample(mw[2:67], 5), "procs": procs})
     recs = s.execute(cases, "c05")
     s.cov["executions"] = sum(len(c["writers"]) + len(c["procs"]) for c in cases)
     rejected = s.validate(recs, "c05", chunk=250)
